@@ -120,7 +120,7 @@ class Task:
 
 
 class Sim:
-    def __init__(self, chooser, buggify=0.0, step_cap=100000, op_cost=1e-4):
+    def __init__(self, chooser, buggify=0.0, step_cap=100000, op_cost=1e-4, policy='des', pct_depth=2, pct_horizon=400):
         self.ch = chooser
         self.buggify = buggify
         self.step_cap = step_cap
@@ -135,6 +135,16 @@ class Sim:
         self.schedule = []       # task ids in pick order
         self.abandoned = 0
         self.stats = {}
+        # policy 'pct': priority-based scheduling with a few random priority-change points (probabilistic concurrency
+        # testing): finds orderings that need a specific task to be delayed at a specific step, which time-ordered or
+        # uniformly random picking rarely produces
+        self.policy = policy
+        self.prio = {}
+        self.low = 0.0
+        self.change_points = set()
+        if policy == 'pct':
+            for i in range(pct_depth):
+                self.change_points.add(int(self.ch.number('pct-change', lambda st: float(st.randrange(max(pct_horizon, 1))), float(10 * (i + 1)))))
 
     # ---- called from the driver thread -------------------------------------------------------
     def spawn(self, name, fn, start_clock=None):
@@ -168,7 +178,17 @@ class Sim:
                 return t.clock if t.cond is None else max(t.clock, self.now)
             runnable.sort(key=lambda t: (eff(t), t.tid))
             ids = [t.tid for t in runnable]
-            if len(ids) > 1 and self.buggify > 0 and self.ch.flag('bug', self.buggify):
+            if self.policy == 'pct':
+                for t in runnable:
+                    if t.tid not in self.prio:
+                        self.prio[t.tid] = self.ch.number('pct-prio', lambda st: 1.0 + st.random(), 1.0 + 1.0 / (2 + t.tid))
+                tid = max(ids, key=lambda i: (self.prio[i], -i))
+                if self.steps in self.change_points:
+                    self.low -= 1.0
+                    self.prio[tid] = self.low
+                    self.count('pct_priority_changes')
+                    tid = max(ids, key=lambda i: (self.prio[i], -i))
+            elif len(ids) > 1 and self.buggify > 0 and self.ch.flag('bug', self.buggify):
                 tid = self.ch.pick('any', ids)
                 self.count('buggify_picks')
             elif len(ids) > 1:
